@@ -83,17 +83,18 @@ class Parser(object):
         t.lexer.lineno += len(t.value)
 
     def t_comment(self, t):
-        r'/\*[^*]*\*+(?:[^/*][^*]*\*+)*/'
-        t.lexer.lineno += t.value.count('\n')
-
-    def t_unterminated_comment(self, t):
-        r'/\*(.|\n)*'
-        self._parser_error("comment is not terminated", t.lexer.lineno, t.lexpos)
-        t.lexer.lineno += t.value.count('\n')
+        r'/\*'
+        """ the end is searched by hand: a regular expression needs memory for every star of a long comment """
+        end = t.lexer.lexdata.find('*/', t.lexer.lexpos)
+        if end < 0:
+            self._parser_error("comment is not terminated", t.lexer.lineno, t.lexpos)
+            end = len(t.lexer.lexdata) - 2
+        t.lexer.lineno += t.lexer.lexdata.count('\n', t.lexer.lexpos, end + 2)
+        t.lexer.lexpos = end + 2
 
     def t_linecomment(self, t):
-        r'//[^\n]*\n?'
-        t.lexer.lineno += t.value.count('\n')
+        r'//[^\r\n]*(\r\n|\n|\r)?'
+        t.lexer.lineno += 1 if t.value[-1:] in ('\n', '\r') else 0
 
     def t_error(self, t):
         t.lexer.skip(1)
